@@ -41,9 +41,14 @@ Definition aset {A} (k : bytes) (v : A) (m : list (bytes * A)) : list (bytes * A
 
 (* ---------------------------------------------------------------------------------------------- events *)
 
-(* outcome of json.Unmarshal on event.Data into uri (client.go:183-188, defs.go:37-85) *)
+(* outcome of json.Unmarshal on event.Data into uri (client.go:183-188, defs.go:37-85).  On an error the struct holds
+   whatever Uri.UnmarshalJSON stored before it returned: nothing for the errors encoding/json raises itself (syntax,
+   wrong JSON type: defs.go:47-50 return before the receiver is touched), but ALL weights for a host key of
+   uriSpecificProperties / partitionDesc that url.Parse rejects (defs.go:65-80 run after the weights were filled in),
+   and some of them for a bad key among the weights themselves (defs.go:57-63, map order).  The handler must not
+   look at them. *)
 Inductive payload :=
-| PMalformed                 (* err != nil: syntax error, wrong JSON type, unparsable host URL *)
+| PMalformed (partial : ann) (* err != nil; partial = what is left in uri.Weights *)
 | PDecoded (weights : ann).  (* err == nil; weights = [] for a partition-only / empty announcement *)
 
 (* TreeCacheEvent (treecache.go:28-32): Data == nil means the znode is gone *)
@@ -128,7 +133,7 @@ Definition handle_uri_update (w : addr) (e : tce) (s : st) : outcome (addr * st)
                | Panic => Panic
                | Done (w', s') => Done (w', write w' (aremove path) s')
                end
-           | Some PMalformed => Done (w, s)                                 (* :184-188 *)
+           | Some (PMalformed _) => Done (w, s)                             (* :184-188 *)
            | Some (PDecoded u) =>
                if is_nil u then Done (w, s)                                 (* :190-193 *)
                else match copy w s with                                     (* :197-199 *)
@@ -155,6 +160,21 @@ Fixpoint run_trace (hist : list tce) (w : addr) (s : st) : outcome (list addr * 
   | e :: r => match handle_uri_update w e s with
               | Panic => Panic
               | Done (w', s') => match run_trace r w' s' with
+                                 | Panic => Panic
+                                 | Done (ws, s'') => Done (w' :: ws, s'')
+                                 end
+              end
+  end.
+
+(* the event-delivery layer: the loop consumes its channel burst by burst (a burst = the events that are already
+   waiting when the loop runs again); a snapshot is published after every event, the last one of each burst is
+   what a reader sees once the burst is consumed.  Returns the snapshot published at the end of each burst. *)
+Fixpoint run_bursts (bursts : list (list zevent)) (w : addr) (s : st) : outcome (list addr * st) :=
+  match bursts with
+  | [] => Done ([], s)
+  | b :: r => match run (map to_tce b) w s with
+              | Panic => Panic
+              | Done (w', s') => match run_bursts r w' s' with
                                  | Panic => Panic
                                  | Done (ws, s'') => Done (w' :: ws, s'')
                                  end
